@@ -54,7 +54,9 @@ CHECKS["C04"] = dict(
 CHECKS["C16"] = dict(
     level="exploration",
     rule=_UDP_GEN + "After the history the listener is shut down and the recorded UDPMetrics/UDPConnMetrics call log is compared, per association and in order, "
-         "with the sizes and outcomes observed at the client and target sockets. Non-trivial = an association with >=2 client datagrams or >=1 reply. "
+         "with the sizes and outcomes observed at the client and target sockets; the real Prometheus collector sits behind the recorder and what it exports "
+         "(udp_nat_entries_added/removed, data_bytes{proto=udp} per key and direction, udp_packets_from_client_per_location per status) must add up to the same calls. "
+         "Non-trivial = an association with >=2 client datagrams or >=1 reply. "
          "Distinct = canonical case JSON.",
     assumptions=["interleaving between client-datagram and reply reports of one association is not asserted (two goroutines)"],
     units=[unit("props", ["Metrics", "MetricsExpiry"], "C16")],
